@@ -24,7 +24,12 @@ fn run_case(dir: &std::path::Path, bytes: &[u8]) -> String {
 const TOKENS: [&[u8]; 42] = [b"-p18446744073709551615", b"-p4000000000", b"a.patch", b"b.patch", b"dir/c.patch", b"-p0", b"-p1", b"-p2", b"-p", b"1", b"-R", b"-Rp1", b"-p1R", b"-RR",
     b"--strip=2", b"--strip", b"3", b"--reverse", b"--reverse=1", b"--strip=", b"-px", b"-p+1", b"-p-1", b"-p01", b"-p18446744073709551616",
     b"--", b"-", b"-x", b"--unknown", b"#c", b"x#y", b"-pR", b"--strip=2=3", b"-p1p2", b"-R-p3", b"\xc3\xa9.patch", b"-p\xc3\xa9", b"--str", b"-Rx", b"-p 2", b"extra", b"-p1 -p2"];
-const SEPS: [&[u8]; 6] = [b" ", b"  ", b"\t", b" \t ", b"\x0b", b"\x0c"];
+// separators: ASCII white space, the Unicode White_Space characters `str::split_whitespace` also splits at
+// (U+0085, U+00A0, U+1680, U+2000..U+200A, U+2028, U+2029, U+202F, U+205F, U+3000), and two look-alikes that are
+// NOT white space (U+200B zero width space, U+00A1)
+const SEPS: [&[u8]; 20] = [b" ", b"  ", b"\t", b" \t ", b"\x0b", b"\x0c", b" ", b"\t",
+    b"\xc2\xa0", b"\xe3\x80\x80", b"\xc2\x85", b"\xe1\x9a\x80", b"\xe2\x80\x83", b"\xe2\x80\x8a", b"\xe2\x80\xa8", b"\xe2\x80\xa9",
+    b"\xe2\x80\xaf", b"\xe2\x81\x9f", b"\xe2\x80\x8b", b"\xc2\xa1"];
 
 pub fn run<W: Write>(out: &mut W, seed: u64, n: usize, _opts: &HashMap<String, String>) {
     let dir = tempfile::tempdir().unwrap();
@@ -46,7 +51,7 @@ pub fn run<W: Write>(out: &mut W, seed: u64, n: usize, _opts: &HashMap<String, S
                         let t = if j == 0 && rng.chance(80) { TOKENS[rng.below(3)] } else { TOKENS[rng.below(TOKENS.len())] };
                         b.extend_from_slice(t);
                     }
-                    if rng.chance(10) { b.extend_from_slice(b" "); }
+                    if rng.chance(10) { b.extend_from_slice(*rng.pick(&SEPS)); }
                     match rng.below(20) { 0 => b.extend_from_slice(b"\r\n"), 1 => {}, 2 => b.extend_from_slice(b"\r\r\n"), _ => b.extend_from_slice(b"\n") }
                 }
             }
